@@ -2,7 +2,7 @@
 # confirm_seeded.sh <worker-id> <ID>... : independently confirm seeded faults in a scratch worktree of /repo (current HEAD).
 # For each: patch applies, demo FAILS with the patch, the 45-test baseline passes with the patch, demo PASSES without it.
 w=$1; shift
-export CARGO_NET_OFFLINE=true CARGO_TARGET_DIR=/tmp/cf/target-$w
+export CARGO_NET_OFFLINE=true CARGO_TARGET_DIR=${CF_TARGET:-/tmp/cf/target-$w}
 for id in "$@"; do
   st=/verif/seeded_staging/$id
   out=/tmp/cf/$id.result
